@@ -28,6 +28,28 @@ import (
 type Unknown struct {
 	Kind string `json:"kind,omitempty"` // "", "interpreter", "guardInterpreter", "syntax", "branchType"
 	Node string `json:"node,omitempty"`
+	// Near: a near-miss spelling of the name that is there ("Message",
+	// " ecmascript"): 1 title case, 2 upper case, 3 leading blank, 4
+	// trailing blank.  Such a name must either be rejected at compile
+	// time or mean exactly what the canonical spelling means.
+	Near int `json:"near,omitempty"`
+}
+
+func nearMiss(name string, near int) string {
+	switch near {
+	case 1:
+		if name == "" {
+			return name
+		}
+		return strings.ToUpper(name[:1]) + name[1:]
+	case 2:
+		return strings.ToUpper(name)
+	case 3:
+		return " " + name
+	case 4:
+		return name + " "
+	}
+	return name
 }
 
 type ReprCase struct {
@@ -74,6 +96,9 @@ func genRepr(t *rapid.T) ReprCase {
 	if rapid.IntRange(0, 5).Draw(t, "unk") == 0 {
 		c.Unknown = Unknown{Kind: rapid.SampledFrom([]string{"interpreter", "guardInterpreter", "syntax", "branchType"}).Draw(t, "unkk"),
 			Node: rapid.SampledFrom(a.NodeNames()).Draw(t, "unkn")}
+		if c.Unknown.Kind != "syntax" && rapid.Bool().Draw(t, "near") {
+			c.Unknown.Near = rapid.IntRange(1, 4).Draw(t, "nearKind")
+		}
 	}
 	return c
 }
@@ -88,6 +113,9 @@ func applyUnknown(s *core.Spec, u Unknown) bool {
 			return false
 		}
 		n.ActionSource.Interpreter = "cobol"
+		if u.Near > 0 {
+			n.ActionSource.Interpreter = nearMiss("ecmascript", u.Near)
+		}
 		return true
 	case "guardInterpreter":
 		if n == nil || n.Branches == nil {
@@ -96,6 +124,9 @@ func applyUnknown(s *core.Spec, u Unknown) bool {
 		for _, b := range n.Branches.Branches {
 			if b.GuardSource != nil {
 				b.GuardSource.Interpreter = "cobol"
+				if u.Near > 0 {
+					b.GuardSource.Interpreter = nearMiss("ecmascript", u.Near)
+				}
 				return true
 			}
 		}
@@ -111,6 +142,13 @@ func applyUnknown(s *core.Spec, u Unknown) bool {
 	case "branchType":
 		if n == nil || n.Branches == nil {
 			return false
+		}
+		if u.Near > 0 {
+			if n.Branches.Type == "" {
+				return false
+			}
+			n.Branches.Type = nearMiss(n.Branches.Type, u.Near)
+			return true
 		}
 		n.Branches.Type = "sideways"
 		return true
@@ -346,7 +384,9 @@ func traceOf(spec *core.Spec, c ReprCase) (string, int) {
 	for _, m := range c.Messages {
 		var w *core.Walked
 		var err error
-		if p := trap(func() { w, err = spec.Walk(context.Background(), st, []interface{}{jsongen.Copy(m)}, &core.Control{Limit: 30}, nil) }); p != "" {
+		if p := trap(func() {
+			w, err = spec.Walk(context.Background(), st, []interface{}{jsongen.Copy(m)}, &core.Control{Limit: 30}, nil)
+		}); p != "" {
 			sb.WriteString("panic;")
 			return sb.String(), moves
 		}
@@ -389,10 +429,30 @@ func checkRepr(c ReprCase) (v ev.Verdict) {
 	}
 	if c.Unknown.Kind != "" {
 		v.Class("unknown:" + c.Unknown.Kind)
+		var canon string
+		if c.Unknown.Near > 0 {
+			v.Class("unknown:near-miss")
+			plain := c
+			plain.Unknown = Unknown{}
+			if pv, ok := buildVariants(plain, known); ok && len(pv) > 0 && pv[0].err == nil {
+				canon, _ = traceOf(pv[0].spec, c)
+			}
+		}
 		for _, x := range vs {
 			if x.err == nil {
-				v.Failf("variant %s: an unknown %s was accepted at compile time", x.name, c.Unknown.Kind)
-				return
+				if c.Unknown.Near == 0 {
+					v.Failf("variant %s: an unknown %s was accepted at compile time", x.name, c.Unknown.Kind)
+					return
+				}
+				// a spelling variant may be accepted, but then it has
+				// to mean what the canonical spelling means
+				if canon == "" {
+					continue
+				}
+				if got, _ := traceOf(x.spec, c); got != canon {
+					v.Failf("variant %s: the %s name %q is accepted at compile time but the machine does not behave like the canonical spelling's:\n%s\nvs\n%s", x.name, c.Unknown.Kind, nearMiss("<name>", c.Unknown.Near), ev.Trunc(got, 600), ev.Trunc(canon, 600))
+					return
+				}
 			}
 		}
 		v.NonTrivial = true
@@ -445,7 +505,6 @@ func confirmReloadFinding(t *testing.T) {}
 func FuzzC13Repr(f *testing.F) {
 	ev.Fuzz(f, ev.Opts{Property: "C13", Name: "repr"}, genRepr, checkRepr)
 }
-
 
 // goTyped rewrites a generic JSON value with the types a Go program
 // would naturally use below the top level.
